@@ -36,7 +36,9 @@ def post_pmtm(x, NW, k, NFFT, e, v, method, result):
     c = _ctx()
     try:
         xa = np.asarray(x)
-        ok = xa.ndim == 1 and len(xa) >= 8 and xa.dtype.kind in 'fci' and np.all(np.isfinite(xa))
+        ok = xa.ndim == 1 and len(xa) >= 8 and xa.dtype.kind in 'fciu' and np.all(np.isfinite(xa))
+        if ok and xa.dtype.kind in 'iu':
+            xa = xa.astype(float)          # the monitor's arithmetic is floating point whatever the storage type
     except Exception:
         ok = False
     if not ok or method not in ('adapt', 'eigen', 'unity'):
@@ -87,8 +89,10 @@ def post_pmtm(x, NW, k, NFFT, e, v, method, result):
             pr = _last_probe.pop('rec', None)
             if pr is not None and pr['wk'].shape == w.shape and np.array_equal(pr['wk'], w):
                 c.count('adapt:weights-judged-at-probe')
-            elif not _PROBE_OK[0]:
-                # fallback: coarse fixed-point test at the spectrum the weights imply
+            else:
+                # these weights did not pass the probe at the loop exit (probe not installed, or this call left
+                # by another path): coarse fixed-point test at the spectrum the weights imply
+                c.count('adapt:weights-not-seen-by-the-probe')
                 P = np.abs(ref.T) ** 2
                 S = np.sum(w * P, axis=1) / np.sum(w, axis=1)
                 if float(np.max(S)) > 100 * float(np.median(S)):
@@ -188,6 +192,8 @@ def cases(c):
         out.append({'form': gen.pick(rng, ['function', 'class', 'class', 'precomputed']), 'N': N, 'NW': NW, 'k': k,
                     'NFFT': NFFT, 'method': gen.pick(rng, ['unity', 'eigen', 'adapt', 'adapt']),
                     'cplx': int(rng.integers(0, 2)), 'kind': gen.pick(rng, KINDS), 'i': i})
+        if i % 7 == 2 and not out[-1]['cplx']:
+            out[-1]['variant'] = gen.NARROW[(i // 7) % len(gen.NARROW)]          # wav / ADC samples in a narrow integer type
     return out
 
 
@@ -195,8 +201,8 @@ def run_case(c, d):
     import spectrum
     m = smod('mtm')
     N, NW, k, NFFT, method, cplx = d['N'], d['NW'], d['k'], d['NFFT'], d['method'], bool(d['cplx'])
-    x = gen.data({'kind': d['kind'], 'N': N, 'cplx': cplx}, c.rng(d, 'x'))
-    if np.asarray(x).dtype.kind == 'i':
+    x = gen.data({'kind': d['kind'], 'N': N, 'cplx': cplx, 'variant': d.get('variant')}, c.rng(d, 'x'))
+    if np.asarray(x).dtype.kind == 'i' and not d.get('variant'):
         x = x.astype(float)
     kk = k if k is not None else max(1, int(min(round(2 * NW), N)))
     c.set_nontrivial(kk >= 2)
